@@ -6,7 +6,9 @@
 package main
 
 import (
+	"verif/harness/cli"
 	"verif/harness/cons"
+	"verif/harness/grp"
 	"verif/harness/hlib"
 	"verif/harness/pipe"
 )
@@ -15,5 +17,7 @@ func main() {
 	run := hlib.StartParallel("C12", 14)
 	pipe.RunAll(run, "C12", []string{"C12:", "C01:"}, 0)
 	cons.RunAll(run, "C12", []string{"C12:"}, 0)
-	run.Finish(pipe.Rule + " || " + cons.Rule + " || C12: every producer scenario is re-run with AsyncClose after the k-th hook event for k spread over the run")
+	grp.RunAll(run, "C12", []string{"C12:"}, 0)
+	cli.RunAll(run, "C12", []string{"C12:"}, 0)
+	run.Finish(pipe.Rule + " || " + cons.Rule + " || " + grp.Rule + " || " + cli.Rule + " || C12: every producer scenario is re-run with AsyncClose after the k-th hook event for k spread over the run")
 }
